@@ -206,11 +206,12 @@ type c08World struct {
 	lastCl            int
 	herr              string
 	ctx               context.Context
-	hsSeq             int    // control handshakes so far in this world (selects the connection_type variant)
-	ageSeq            int    // aging events so far in this world
-	tag               string // appended to every signature judged while set (names the interleaving of the heartbeat-window histories)
-	noSweepUnregister bool   // observed: the sweeper's close leaves the connection record behind
-	spareID           int64  // a provisioned second identity reused across the histories of a world
+	hsSeq             int             // control handshakes so far in this world (selects the connection_type variant)
+	nodeTTL           []time.Duration // per-node connection-state lifetimes (nil: all nodes use ttl)
+	ageSeq            int             // aging events so far in this world
+	tag               string          // appended to every signature judged while set (names the interleaving of the heartbeat-window histories)
+	noSweepUnregister bool            // observed: the sweeper's close leaves the connection record behind
+	spareID           int64           // a provisioned second identity reused across the histories of a world
 	spareSecret       string
 }
 
@@ -301,11 +302,25 @@ func (f *c08Fault) disarm() ([]string, map[string]int, string) {
 
 // c08NewWorldF: with fault != nil every node's store is a gated double whose hook is fault.hook.
 func c08NewWorldF(t *testing.T, run *vk.Run, backend string, ttl time.Duration, nNodes int, sweeper bool, fault *c08Fault) *c08World {
+	return c08NewWorldT(t, run, backend, ttl, nNodes, sweeper, fault, nil)
+}
+
+// life is the lifetime of a registration made for connection c: the one its own node
+// (the writer of the record) is configured with.
+func (w *c08World) life(c *c08Conn) time.Duration {
+	if c != nil && c.node < len(w.nodeTTL) {
+		return w.nodeTTL[c.node]
+	}
+	return w.ttl
+}
+
+// c08NewWorldT: nodeTTL (optional) gives every node its own connection-state lifetime.
+func c08NewWorldT(t *testing.T, run *vk.Run, backend string, ttl time.Duration, nNodes int, sweeper bool, fault *c08Fault, nodeTTL []time.Duration) *c08World {
 	be, err := c08NewBackend(backend)
 	if err != nil {
 		t.Fatalf("c08: backend %s: %v", backend, err)
 	}
-	w := &c08World{run: run, be: be, ttl: ttl, sweeper: sweeper, ctx: context.Background()}
+	w := &c08World{run: run, be: be, ttl: ttl, sweeper: sweeper, ctx: context.Background(), nodeTTL: nodeTTL}
 	bf := &security.BruteForceConfig{MaxFailures: 1000000, TimeWindow: time.Hour, BanDuration: time.Hour, PermanentBanAt: 100000000, CleanupInterval: time.Hour}
 	rl := &security.RateLimitConfig{Rate: 1000000, Burst: 1000000, TTL: time.Hour}
 	for i := 0; i < nNodes; i++ {
@@ -322,6 +337,10 @@ func c08NewWorldF(t *testing.T, run *vk.Run, backend string, ttl time.Duration, 
 			g.SetHook(fault.hook)
 			st = g
 		}
+		nttl := ttl
+		if i < len(nodeTTL) {
+			nttl = nodeTTL[i]
+		}
 		sc := &session.SessionConfig{HeartbeatTimeout: time.Hour, CleanupInterval: time.Hour, MaxConnections: 1000000, MaxControlConnections: 1000000}
 		if sweeper {
 			sc.HeartbeatTimeout = 150 * time.Millisecond
@@ -331,7 +350,7 @@ func c08NewWorldF(t *testing.T, run *vk.Run, backend string, ttl time.Duration, 
 			// explicitly (sweepCur) are ever stale
 			sc.CleanupInterval = 2 * time.Millisecond
 		}
-		w.nodes = append(w.nodes, newMiniNode(t, miniOpts{NodeID: c08NodeName(i), Store: st, Session: sc, BruteForce: bf, RateLimit: rl, ConnStateTTL: ttl, NoCommands: true}))
+		w.nodes = append(w.nodes, newMiniNode(t, miniOpts{NodeID: c08NodeName(i), Store: st, Session: sc, BruteForce: bf, RateLimit: rl, ConnStateTTL: nttl, NoCommands: true}))
 	}
 	return w
 }
@@ -493,7 +512,7 @@ func (w *c08World) heartbeat(cl *c08Client) bool {
 	_ = c.mc.Send(&packet.TransferPacket{PacketType: packet.Heartbeat})
 	r0 := time.Now()
 	c.mc.DrainRaw()
-	if !r0.Before(c.lastKA.c.Add(w.ttl)) {
+	if !r0.Before(c.lastKA.c.Add(w.life(c))) {
 		// this heartbeat may have arrived after the registration lapsed: a correct
 		// server may have nothing left to refresh
 		if c.chain {
@@ -619,8 +638,8 @@ func (w *c08World) ageSession(cl *c08Client, age time.Duration) bool {
 	now := time.Now()
 	aged := *info
 	aged.CreatedAt = now.Add(-age)
-	aged.ExpiresAt = now.Add(w.ttl)
-	if err := st.Set("tunnox:conn_state:"+c.id, &aged, w.ttl); err != nil {
+	aged.ExpiresAt = now.Add(w.life(c))
+	if err := st.Set("tunnox:conn_state:"+c.id, &aged, w.life(c)); err != nil {
 		w.harnessError("age: rewriting the registration of %s: %v", c.id, err)
 		return false
 	}
@@ -777,7 +796,7 @@ func (w *c08World) cleanupVia(cl *c08Client, newest, viaCommand bool) bool {
 	z := cl.zombies[k]
 	cl.zombies = append(cl.zombies[:k], cl.zombies[k+1:]...)
 	w.be.sync()
-	unexpired := time.Now().Before(z.lastKA.c.Add(w.ttl))
+	unexpired := time.Now().Before(z.lastKA.c.Add(w.life(z)))
 	if viaCommand {
 		_ = z.mc.Send(&packet.TransferPacket{PacketType: packet.JsonCommand, CommandPacket: &packet.CommandPacket{CommandType: packet.Disconnect, CommandId: "c08-bye-old"}})
 		w.run.Count("disconnect_cmd_on_abandoned|"+w.be.name, 1)
@@ -1125,14 +1144,17 @@ func (w *c08World) judge(cl *c08Client, asker int, a c08Answer) *c08Pending {
 	}
 	wantNode := w.nodes[c.node].NodeID
 	exp := fmt.Sprintf("node=%q conn=%q", wantNode, c.id)
-	mustFind := c.chain && r2.Before(c.lastKA.c.Add(w.ttl))
+	mustFind := c.chain && r2.Before(c.lastKA.c.Add(w.life(c)))
 	if err == nil {
 		if gotNode == wantNode && gotConn == c.id {
 			w.run.Count("lookups_found_ok", 1)
 			if c.aged > 0 {
 				w.run.Count("found_ok_long_session|"+be, 1)
 			}
-			if mustFind && c2.After(c.hs.r.Add(w.ttl)) {
+			if asker < len(w.nodeTTL) && w.nodeTTL[asker] < w.life(c) {
+				w.run.Count("found_ok_reader_with_shorter_lifetime|"+be, 1)
+			}
+			if mustFind && c2.After(c.hs.r.Add(w.life(c))) {
 				w.run.Count("kept_alive_past_ttl|"+be, 1)
 			}
 			cl.broken = ""
@@ -1164,7 +1186,7 @@ func (w *c08World) judge(cl *c08Client, asker int, a c08Answer) *c08Pending {
 		// lost for this node only? ask it again, then the node holding the connection:
 		// registrations do not come back without a client event, so "still missing here,
 		// present there afterwards" cannot be an effect of timing
-		if again := w.ask(cl, asker); again.err != nil && c08NotConnected(again.err) && again.r2.Before(c.lastKA.c.Add(w.ttl)) {
+		if again := w.ask(cl, asker); again.err != nil && c08NotConnected(again.err) && again.r2.Before(c.lastKA.c.Add(w.life(c))) {
 			if home := w.ask(cl, c.node); w.isCurrent(cl, home) {
 				return mk("C08:not-visible-from-other-node|backend="+be, map[string]any{"expected": exp, "holding_node_finds_it": true})
 			}
@@ -1175,7 +1197,7 @@ func (w *c08World) judge(cl *c08Client, asker int, a c08Answer) *c08Pending {
 		case c.aged > 0:
 			// the registration looks as old as the session is long (> 24 h), lifetime renewed
 			cl.broken = "C08:long-session-unlocatable|backend=" + be
-		case !r2.Before(c.hs.c.Add(w.ttl)):
+		case !r2.Before(c.hs.c.Add(w.life(c))):
 			// the lifetime given at the handshake may be over; only heartbeats
 			// (delivered in time, see mustFind) stand between the client and expiry
 			cl.broken = "C08:expired-despite-heartbeat|backend=" + be
@@ -1372,6 +1394,72 @@ func c08Applicable(seq []string, sym string) bool {
 		return known
 	}
 	return false
+}
+
+// ---------------------------------------------------------------- nodes with different lifetimes
+
+// TestVerifC08MixedLifetimes: the nodes sharing the store are configured with different
+// connection-state lifetimes (rolling configuration change): "any node asking the shared
+// store" includes a node whose own lifetime is far shorter than that of the node that
+// wrote the registration. The lifetime that governs a registration is its writer's.
+func TestVerifC08MixedLifetimes(t *testing.T) {
+	run := vk.Start(t, "C08", "mixedlifetimes")
+	defer run.Finish()
+	nh := run.Pick(25, 300)
+	ttls := []time.Duration{5 * time.Minute, 30 * time.Second, 2 * time.Second}
+	run.Rule(fmt.Sprintf("per backend %d seeded histories (same generator as the random monitor: two clients, 10-40 events) over three nodes sharing the store whose connection-state lifetimes are %v; all nodes looked up after every event (both views); a lookup is demanded to succeed by the interval rule with the lifetime of the node holding the current connection; distinct = backend x event-kind sequence", nh, ttls))
+	worlds := make([]*c08World, len(c08BackendNames))
+	for i, be := range c08BackendNames {
+		worlds[i] = c08NewWorldT(t, run, be, c08LongTTL, 3, false, nil, ttls)
+		worlds[i].tag = "|mixed-lifetimes"
+	}
+	var wg sync.WaitGroup
+	for i, be := range c08BackendNames {
+		w, be := worlds[i], be
+		r := run.Rand("mixed|" + be)
+		wg.Add(1)
+		go func() {
+			defer wg.Done()
+			c08RandomHistories(run, w, r, be, nh)
+		}()
+	}
+	wg.Wait()
+	for i, w := range worlds {
+		herr := w.herr
+		w.close()
+		if herr != "" {
+			t.Fatalf("c08: harness error on backend %s: %s", c08BackendNames[i], herr)
+		}
+	}
+	c08Floors(run, "found_ok_reader_with_shorter_lifetime", "reconnect_other_node")
+}
+
+// c08RandomHistories runs nh seeded histories (two clients) in world w.
+func c08RandomHistories(run *vk.Run, w *c08World, r *rand.Rand, be string, nh int) {
+	for h := 0; h < nh && run.Violations() <= 20 && w.herr == ""; h++ {
+		w.reset(2)
+		n := 10 + r.Intn(31)
+		run.Case(fmt.Sprintf("%s/h%d", be, h), nil)
+		for i := 0; i < n && w.herr == ""; i++ {
+			cl := w.clients[r.Intn(2)]
+			if r.Intn(4) == 0 {
+				cl = w.clients[0]
+			}
+			done := false
+			for try := 0; try < 8 && !done; try++ {
+				done = w.apply(cl, c08Pick(r, cl))
+			}
+			if done {
+				w.check()
+				run.Eval(1)
+			}
+		}
+		kinds := append([]string(nil), w.kinds...)
+		w.closeAll()
+		if c08NonTrivial(kinds) {
+			run.Distinct(be + "|" + strings.Join(kinds, ","))
+		}
+	}
 }
 
 // ---------------------------------------------------------------- long sessions (logical time)
